@@ -1296,10 +1296,10 @@ func (e *Env) decode0(c ssa.Value, truth bool, why string) []Fact {
 			case token.LSS:
 				return []Fact{mk(y.minus(x).addK(-1))}
 			case token.EQL:
-				return []Fact{mk(x.minus(y)), mk(y.minus(x))}
+				return []Fact{mk(x.minus(y)), mk(y.minus(x)), {Atom: "zero(" + canonDiff(x.minus(y)) + ")", Pos: true, Why: why, big: big}}
 			case token.NEQ:
 				d := x.minus(y)
-				out := []Fact{{Atom: "zero(" + d.String() + ")", Pos: false, Why: why, big: big}}
+				out := []Fact{{Atom: "zero(" + canonDiff(d) + ")", Pos: false, Why: why, big: big}}
 				if nonNegLE(d) { // non-negative and not 0  =>  >= 1
 					out = append(out, mk(d.addK(-1)))
 				} else if nonNegLE(d.scale(-1)) {
@@ -1344,6 +1344,15 @@ func (e *Env) decode0(c ssa.Value, truth bool, why string) []Fact {
 		return []Fact{lit("cond:"+e.Term(c), truth, why)}
 	}
 	return []Fact{lit("cond:"+e.Term(c), truth, why)}
+}
+
+// canonDiff renders a difference up to sign (x - y and y - x give the same string): the first atom gets a positive coefficient.
+func canonDiff(d LE) string {
+	as := d.atoms()
+	if len(as) > 0 && d.c[as[0]] < 0 || len(as) == 0 && d.k < 0 {
+		d = d.scale(-1)
+	}
+	return d.String()
 }
 
 func nonNegLE(x LE) bool {
